@@ -917,6 +917,21 @@ fn write_disk(t: &Tree, root: &PathBuf) -> std::io::Result<()> {
             }
         }
     }
+    // modules that are reached through a symbolic link: the directory (or file) of a top-level module lives
+    // outside the package directory and `name` / `name.roto` is a link to it
+    let links = PathBuf::from(format!("{}-links", root.display()));
+    let _ = std::fs::remove_dir_all(&links);
+    if salt % 5 == 2 {
+        std::fs::create_dir_all(&links)?;
+        for (k, &m) in t.mods[0].children.iter().enumerate() {
+            let md = &t.mods[m];
+            let name = if !md.children.is_empty() || md.as_dir { md.name.clone() } else { format!("{}.roto", md.name) };
+            let from = root.join(&name);
+            let to = links.join(format!("{k}-{name}"));
+            std::fs::rename(&from, &to)?;
+            std::os::unix::fs::symlink(&to, &from)?;
+        }
+    }
     Ok(())
 }
 
@@ -998,7 +1013,12 @@ impl WorkerState for W {
                 let body = String::from_utf8_lossy(&case[i + 1]).to_string();
                 let p = self.tmp.join(&rel);
                 let _ = std::fs::create_dir_all(p.parent().unwrap());
-                let _ = std::fs::write(&p, &body);
+                if let Some(target) = body.strip_prefix("@symlink:") {
+                    // a symbolic link to another path of the tree (written before this entry)
+                    let _ = std::os::unix::fs::symlink(self.tmp.join(target.trim()), &p);
+                } else {
+                    let _ = std::fs::write(&p, &body);
+                }
                 let _ = writeln!(text, "=== {rel} ===\n{body}");
                 i += 2;
             }
